@@ -1,10 +1,11 @@
 (* C09 — An operation on one entity leaves unrelated stored entities untouched.
    Only statements, each closed by [exact] and followed by Print Assumptions.
-   [footprint w o] (Model/WsSpec.v) lists the identifiers of the flat nodes operation [o] may rewrite in state [w];
+   EXTENDED model (Model/WsX.v): property groups and copies (twelve operations).
+   [footprint w o] (Model/WsXSpec.v) lists the identifiers of the flat nodes operation [o] may rewrite in state [w];
    every other stored node -- attributes, array token, address and child links -- is bit-for-bit the same afterwards. *)
-From GV Require Import Prelude.Base Model.Ws Model.WsSpec Proofs.WsProofs.
+From GV Require Import Prelude.Base Model.WsX Model.WsXSpec Proofs.WsXProofs.
 
-(* unconditional: ANY state w (also states with stale or orphan nodes), all nine operations, whatever the outcome *)
+(* unconditional: ANY state w (also states with stale or orphan nodes), all twelve operations, whatever the outcome *)
 Theorem C09_step_frame : forall w o x,
   ~ In x (footprint w o) ->
   fget x (flat (wfile (fst (step w o)))) = fget x (flat (wfile w)).
@@ -42,14 +43,17 @@ Proof. exact step_frame_run. Qed.
 Print Assumptions C09_step_frame_run.
 
 (* non-vacuity: in a reached state where the file represents the tree, a move leaves the stored nodes of the moved
-   subtree itself (here O3 and its data D4) outside the sharp footprint, and they exist in the file *)
+   subtree itself (here O3 with its two property groups, and its data D4, D7) outside the sharp footprint, and they
+   exist in the file; a copy touches only the new parent and the nodes it creates *)
 Example C09_nonvacuous :
-  let w := run (firstn 5 ops_demo) init in
+  let w := run (firstn 9 ops_demo) init in
   Rep (wmem w) (wfile w) (wpend w) /\
   footprint_rep w (Move (KO, 3%N) (KG, 2%N)) = [(KG, 1%N); (KG, 2%N)] /\
   snd (step w (Move (KO, 3%N) (KG, 2%N))) = Done /\
-  fget (KD, 4%N) (flat (wfile w)) <> None /\ fget (KO, 3%N) (flat (wfile w)) <> None.
+  fget (KD, 4%N) (flat (wfile w)) <> None /\ fget (KO, 3%N) (flat (wfile w)) <> None /\
+  footprint (run (firstn 7 ops_demo) init) (Copy (KO, 3%N) (KG, 2%N) [20; 21; 22; 23; 24]%N)
+  = [(KG, 2%N); (KO, 20%N); (KD, 21%N); (KD, 22%N)].
 Proof.
-  split; [apply (rep_run (firstn 5 ops_demo)); vm_compute; reflexivity|].
+  split; [apply (rep_run (firstn 9 ops_demo)); vm_compute; reflexivity|].
   vm_compute. repeat split; discriminate.
 Qed.
